@@ -51,6 +51,9 @@ def extra_obligations(index, tier):
         if re.search(r"list\(set\([^)]*\)\)\[0\]|next\(iter\(", t):
             bad.append(key)
     out.append(("no arbitrary-element choice from a set (list(set(..))[0] / next(iter(..)))", not bad, str(bad), "codebasin"))
+    # the structure of find() (fresh state per entry, every file parsed by its own language before any association)
+    # is what makes the result independent of the order of platforms and entries
+    out += [o for o in C08.extra_obligations(index, tier) if o[0].startswith(("structure/", "footprint/the per-entry"))]
     return out
 
 
